@@ -17,9 +17,14 @@ func init() {
 	register("conn.lifecycle", func(tier string) []Variant {
 		var vs []Variant
 		for _, oc := range []string{"none", "short", "long", "close"} {
-			for _, or := range []string{"read", "close"} {
+			for _, or := range []string{"read", "close", "none"} {
 				for _, env := range []string{"close", "send", "send+close"} {
 					if or == "close" && env == "close" {
+						continue
+					}
+					if or == "none" && oc == "none" {
+						// neither OnConnect nor OnRequest: by design (comment in onHup) such a connection is
+						// torn down only when its user calls Close; nothing of C09 to judge
 						continue
 					}
 					oc, or, env := oc, or, env
@@ -70,7 +75,7 @@ func lifecycleScenario(onConnect, onRequest, env string) *vsched.Scenario {
 				return ctx
 			}))
 		}
-		srv := netpoll.VerifNewServer(func(ctx context.Context, c netpoll.Connection) error {
+		var handler netpoll.OnRequest = func(ctx context.Context, c netpoll.Connection) error {
 			vsched.LogEvent("request:start")
 			if onRequest == "close" {
 				c.Close()
@@ -81,7 +86,11 @@ func lifecycleScenario(onConnect, onRequest, env string) *vsched.Scenario {
 			}
 			vsched.LogEvent("request:end")
 			return nil
-		}, opts...)
+		}
+		if onRequest == "none" {
+			handler = nil // a server with OnConnect/OnDisconnect only: nobody consumes the input
+		}
+		srv := netpoll.VerifNewServer(handler, opts...)
 		vsched.Go("peer", func() {
 			for _, act := range strings.Split(env, "+") {
 				switch act {
